@@ -54,6 +54,10 @@ def expr(r, d=0):
         return '(' + r.choice(['', ' ']) + expr(r, d + 1) + r.choice(['', ' ']) + ')'
     op = r.choice(['+', '-', '*', '/'])
     sp = r.choice(['', ' '])
+    if op == '/':
+        # never a zero divisor: evaluating the value of such an expression raises, which is no property's business here
+        right = r.choice(['1', '100.00', '1,234.56', '0.5', '3.', '12', '(12)', '-3'])
+        return expr(r, d + 1) + sp + op + sp + right
     return expr(r, d + 1) + sp + op + sp + expr(r, d + 1)
 
 
